@@ -324,12 +324,48 @@ pub fn run_shard(def: &PropDef, tier: Tier, seed: u64, shard: u64, of: u64) -> (
     let failed = RefCell::new(false);
     let first_msg: RefCell<Option<String>> = RefCell::new(None);
     let trace = std::env::var_os("MVV_TRACE").is_some();
+    // Per-case hang guard: a case that is still running after the limit (quick 240 s, thorough
+    // 1800 s; the slowest legitimate case seen is 60 s single threaded) makes the shard write the
+    // input to replays/ and exit, so that the parent can report "suspected hang" with a replay
+    // file within minutes instead of waiting for its own watchdog. A time limit is never a
+    // verdict: the run is INCONCLUSIVE (exit 2).
+    let guard: std::sync::Arc<std::sync::Mutex<Option<(Instant, String)>>> = Default::default();
+    {
+        let guard = guard.clone();
+        let limit = Duration::from_secs(tier.pick(240, 1800));
+        let id = def.id;
+        std::thread::spawn(move || loop {
+            std::thread::sleep(Duration::from_secs(2));
+            if let Ok(g) = guard.lock() {
+                if let Some((t, json)) = g.as_ref() {
+                    if t.elapsed() > limit {
+                        let mut h = 0xcbf2_9ce4_8422_2325u64;
+                        for b in json.bytes() {
+                            h ^= b as u64;
+                            h = h.wrapping_mul(0x100_0000_01B3);
+                        }
+                        let path = format!("{}/replays/{}-hang-{:016x}.json", crate::verif_root(), id, h);
+                        let _ = std::fs::create_dir_all(format!("{}/replays", crate::verif_root()));
+                        let _ = std::fs::write(&path, json);
+                        println!("SHARD-HANG {} s replay={}", limit.as_secs(), path);
+                        std::process::exit(3);
+                    }
+                }
+            }
+        });
+    }
     let result = runner.run(&strategy, |case| {
+        if let Ok(mut g) = guard.lock() {
+            *g = Some((Instant::now(), serde_json::to_string_pretty(&case.to_json()).unwrap_or_default()));
+        }
         if trace {
             eprintln!("TRACE {}", serde_json::to_string(&case.to_json()).unwrap());
         }
         let t_case = Instant::now();
         let (r, mut cs) = eval(def.check, &case);
+        if let Ok(mut g) = guard.lock() {
+            *g = None;
+        }
         // informational only (never part of a verdict)
         cs.max("slowest_case_ms", t_case.elapsed().as_secs_f64() * 1e3);
         if t_case.elapsed().as_secs_f64() > 5. {
@@ -589,6 +625,13 @@ fn parse_shard_output(so: &str, se: &str, code: Option<i32>) -> ShardOut {
                 return ShardOut { stats, failure, infra: None };
             }
         }
+    }
+    if let Some(line) = so.lines().rev().find(|l| l.starts_with("SHARD-HANG ")) {
+        return ShardOut {
+            stats: Stats::default(),
+            failure: None,
+            infra: Some(format!("one case did not finish within {} (suspected hang; a time limit is never a verdict); the input can be replayed from the file named there", &line["SHARD-HANG ".len()..])),
+        };
     }
     let tail: String = se.chars().rev().take(600).collect::<String>().chars().rev().collect();
     ShardOut {
